@@ -404,4 +404,4 @@ PROP = Prop(
     assumptions=["'moderate magnitude': |score| <= ~2e6; tie-free inputs have separation >= 1e-3"],
 )
 
-RULE_EXTRA = ('1e5-5e6 easy samples next to 1-12 scored ones with a slack of 1% of a sample; clause inverted_large; score scales 1e-9..1e6; uint8/int8/int16/uint16/float16 scores near the top of their range and long-double scores one extended ulp apart (zero clause); GroupScores over the same unsorted data must give the same eer().')
+RULE_EXTRA = ('1e5-5e6 easy samples next to 1-12 scored ones with a slack of 1% of a sample; clause inverted_large; score scales 1e-9..1e6; uint8/int8/int16/uint16/float16 scores near the top of their range and long-double scores one extended ulp apart (zero clause); GroupScores over the same unsorted data must give the same eer(). Conventions re-assigned as plain strings after construction; clauses packed_edge (crossing 20-25 samples from the end of a run of 3000 scores 2^-40 apart) and packed_easy (200 packed scores under 1e9-1e13 easy samples per class); classes of 800000 with hard fractions 7.5e-6 apart.')
